@@ -115,6 +115,7 @@ type Sim struct {
 	closed   map[unsafe.Pointer]bool
 	mapCount map[string]int
 	steps    int
+	sub      int // sub-step counter for Now(): distinct stamps inside one transition
 	hash     uint64
 	events   []string
 	probes   map[string]int
@@ -523,6 +524,7 @@ func Run(cfg Config, root func()) *Result {
 			}
 			tr := s.pick(ts)
 			s.steps++
+			s.sub = 0
 			s.event(tr.key)
 			s.last = tr.t
 			tr.t.state = stRunning
